@@ -593,6 +593,19 @@ def run(ctx):
             ok = False
         ctx.check(ok and not bc[0].pc, 'Z4', 'the root level is DEBUG exactly when --verbose is given, else INFO (configured unconditionally)',
                   key=('Z4', 'level'), detail={'found': tq.text(lv) if lv is not None else None})
+    # the start-up failure path: a YAML error of the configuration file is logged at ERROR with the parser's own message.  PyYAML quotes
+    # the offending lines in that message when it was given the text (a str / bytes: Mark.get_snippet), not when it reads a stream -
+    # and the offending line may be the one with the PSK.  The file goes to the parser as the open file object.
+    if cfg:
+        yl = [c for c in MB.calls if isinstance(c.callee, str) and c.callee.startswith('yaml.') and c.callee.split('.')[-1] in (
+            'load', 'safe_load', 'full_load', 'unsafe_load', 'load_all', 'safe_load_all')]
+        ctx.floor('Z2 YAML parser calls in pyikev2.py', len(yl), 1, rule='Z2')
+        for c in yl:
+            a0 = c.args.get('#0', c.args.get('stream'))
+            ok = a0 is not None and a0[0] == 'with' and tq.is_call(a0[1], 'builtins.open')
+            ctx.check(ok, 'Z2', 'the configuration file is parsed from the open file (a stream), not from its text: the parser\'s error message, '
+                      'which is logged at ERROR, then quotes nothing of the file', key=('Z2', 'yaml-stream'),
+                      detail={'argument': tq.text(a0, 160) if a0 is not None else None})
     adds = [x for x in ast.walk(py.tree) if isinstance(x, ast.Call) and callee_name(x) == 'add_argument' and any(
         isinstance(a, ast.Constant) and a.value == '--verbose' for a in x.args)]
     ok = len(adds) == 1 and any(k.arg == 'action' and isinstance(k.value, ast.Constant) and k.value.value == 'store_true' for k in adds[0].keywords)
